@@ -37,6 +37,7 @@ type HistConfig struct {
 	PDepOutside    float64 // without All: select a package whose dependencies are not selected
 	PLinkOut       float64 // generated files of a package are moved elsewhere and linked in
 	PCwd           float64 // gengo is started in a package directory, not in the module root
+	PClock         float64 // an edit whose file clock is kept, far in the past or in the future; same-size edit motif
 }
 
 func schedOf(policy string, seed uint64) simrt.Schedule {
@@ -331,6 +332,14 @@ func DrawHistory(r *Rng, cfg HistConfig) (*Scenario, *histWorld) {
 				ops = append(ops, Op{Kind: "corruptsum", K: r.Intn(64),
 					How: Pick(r, []string{"drop-line", "alter-hash", "truncate", "garbage", "swap-hashes", "crlf", "dup-line-stale", "empty"})})
 			}
+		case r.P(cfg.PClock / 2):
+			// motif: two edits of one file that differ in content only - same size, same modification time -
+			// with a full run in between (whatever remembers files by size and time sees no change)
+			pi := r.Intn(len(m.Pkgs))
+			f := m.Pkgs[pi].Files[r.Intn(len(m.Pkgs[pi].Files))].Name
+			mid := w.drawRun(r, cfg)
+			mid.Args.All = true
+			ops = append(ops, Op{Kind: "touch", K: pi, Path: f, SameSize: true}, Op{Kind: "run", Run: mid}, Op{Kind: "touch", K: pi, Path: f, SameSize: true, MTime: "keep"})
 		case r.P(cfg.PLinkOut):
 			ops = append(ops, Op{Kind: "linkout", K: r.Intn(len(m.Pkgs))})
 			if r.P(0.7) {
@@ -373,6 +382,14 @@ func DrawHistory(r *Rng, cfg HistConfig) (*Scenario, *histWorld) {
 				run.Fresh = false
 			}
 			ops = append(ops, Op{Kind: "run", Run: run})
+		}
+	}
+	for k := range ops {
+		switch ops[k].Kind {
+		case "edit", "touch", "retag":
+			if ops[k].MTime == "" && r.P(cfg.PClock) {
+				ops[k].MTime = Pick(r, []string{"keep", "past", "past", "future"})
+			}
 		}
 	}
 	if broken {
@@ -515,7 +532,7 @@ func SimC07(c *CheckCtx, i int, r *Rng) error {
 		return SimC08(c, i, r)
 	}
 	return runHistory(c, i, r, HistConfig{MinOps: 3, MaxOps: 7, PAll: 0.6, PForce: 0.3, PGlobals: 0.2, PSubsetGens: 0.5, PEdit: 0.15, PStale: 0.25,
-		PSumOps: 0.05, PBreak: 0.08, PGenFault: 0.12, PIOFault: 0.12, PKill: 0.1, PConverge: 0.2, PMute: 0.35, PDepOutside: 0.5, PReal: 0.1, PUniform: 0.3, PCancel: 0.05, PWarm: 0.1, PLinkOut: 0.1, PCwd: 0.2})
+		PSumOps: 0.05, PBreak: 0.08, PGenFault: 0.12, PIOFault: 0.12, PKill: 0.1, PConverge: 0.2, PMute: 0.35, PDepOutside: 0.5, PReal: 0.1, PUniform: 0.3, PCancel: 0.05, PWarm: 0.1, PLinkOut: 0.1, PCwd: 0.2, PClock: 0.1})
 }
 
 // SimC08: the gengo.sum cache against the reference model.
@@ -524,7 +541,7 @@ func SimC08(c *CheckCtx, i int, r *Rng) error {
 		return simWide(c, i, r)
 	}
 	return runHistory(c, i, r, HistConfig{MinOps: 4, MaxOps: 9, PAll: 0.85, PForce: 0.15, PGlobals: 0.1, PSubsetGens: 0.2, PEdit: 0.3, PStale: 0.05,
-		PSumOps: 0.2, PUnhashable: 0.06, PBreak: 0.04, PGenFault: 0.1, PIOFault: 0.12, PKill: 0.08, PMidEdit: 0.1, PConverge: 0.6, PFailAfterEdit: 0.12, PMute: 0.1, PReal: 0.08, PUniform: 0.4, PCancel: 0.04, PWarm: 0.06, PCwd: 0.1})
+		PSumOps: 0.2, PUnhashable: 0.06, PBreak: 0.04, PGenFault: 0.1, PIOFault: 0.12, PKill: 0.08, PMidEdit: 0.1, PConverge: 0.6, PFailAfterEdit: 0.12, PMute: 0.1, PReal: 0.08, PUniform: 0.4, PCancel: 0.04, PWarm: 0.06, PCwd: 0.1, PClock: 0.25})
 }
 
 // simWide: a module with many local packages (a size no small world reaches: code that switches
